@@ -196,6 +196,11 @@ impl PrimalSimplex {
         
         // Check if initial basis is feasible
         let x = basis.solve_basic(b)?;
+        #[cfg(selen_verif)]
+        {
+            crate::verif_hooks::lp_trace_event(0, &basis.basic, &basis.nonbasic);
+            crate::verif_hooks::lp_trace_x(&x);
+        }
         lp_debug!("SIMPLEX Phase I: Solved for basic solution, checking feasibility...");
         
         if basis.is_primal_feasible(&x, self.config.feasibility_tol) {
@@ -298,6 +303,11 @@ impl PrimalSimplex {
                 lp_debug!("SIMPLEX Phase I: Computing reduced costs for iteration 0");
             }
             let reduced_costs = phase1_basis.compute_reduced_costs(&a_augmented, &c_phase1)?;
+            #[cfg(selen_verif)]
+            {
+                crate::verif_hooks::lp_trace_event(1, &phase1_basis.basic, &phase1_basis.nonbasic);
+                crate::verif_hooks::lp_trace_reduced(&reduced_costs);
+            }
             if phase1_iterations == 0 {
                 lp_debug!("SIMPLEX Phase I: Computed reduced costs, finding entering variable");
                 lp_debug!("SIMPLEX Phase I: reduced_costs.len() = {}", reduced_costs.len());
@@ -323,6 +333,11 @@ impl PrimalSimplex {
                 // No improving direction found - check if we have a feasible solution
                 let x_basic = phase1_basis.solve_basic(&b_augmented)?;
                 let obj = phase1_basis.objective_value(&x_basic, &c_phase1);
+                #[cfg(selen_verif)]
+                {
+                    crate::verif_hooks::lp_trace_x(&x_basic);
+                    crate::verif_hooks::lp_trace_objective(obj);
+                }
                 
                 lp_debug!("SIMPLEX Phase I: No improving direction, obj={}, feasibility_tol={}", 
                           obj, self.config.feasibility_tol);
@@ -410,6 +425,11 @@ impl PrimalSimplex {
             // Get current basic solution (solve_basic returns it indexed by variable; the
             // ratio test pairs it with `direction`, which is indexed by basis position)
             let x_full = phase1_basis.solve_basic(&b_augmented)?;
+            #[cfg(selen_verif)]
+            {
+                crate::verif_hooks::lp_trace_direction(entering, &direction);
+                crate::verif_hooks::lp_trace_x(&x_full);
+            }
             let x_basic: Vec<f64> = phase1_basis.basic.iter().map(|&idx| x_full[idx]).collect();
             if phase1_iterations == 0 {
                 lp_debug!("SIMPLEX Phase I: Got basic solution, finding leaving variable");
@@ -482,6 +502,12 @@ impl PrimalSimplex {
             // even if reduced costs suggest further improvement
             let x_basic_check = phase1_basis.solve_basic(&b_augmented)?;
             let obj_check = phase1_basis.objective_value(&x_basic_check, &c_phase1);
+            #[cfg(selen_verif)]
+            {
+                crate::verif_hooks::lp_trace_event(3, &phase1_basis.basic, &phase1_basis.nonbasic);
+                crate::verif_hooks::lp_trace_x(&x_basic_check);
+                crate::verif_hooks::lp_trace_objective(obj_check);
+            }
             
             if obj_check < self.config.feasibility_tol {
                 lp_debug!("SIMPLEX Phase I: Feasible solution found at iteration {} (obj={})", 
@@ -579,6 +605,12 @@ impl PrimalSimplex {
             
             // Compute reduced costs
             let reduced_costs = basis.compute_reduced_costs(a, c)?;
+            #[cfg(selen_verif)]
+            {
+                crate::verif_hooks::lp_trace_event(2, &basis.basic, &basis.nonbasic);
+                crate::verif_hooks::lp_trace_x(&x);
+                crate::verif_hooks::lp_trace_reduced(&reduced_costs);
+            }
             
             // Check optimality: all reduced costs <= 0
             if basis.is_dual_feasible(&reduced_costs, self.config.optimality_tol) {
@@ -606,6 +638,8 @@ impl PrimalSimplex {
             
             // Find leaving variable using minimum ratio test
             let x_basic: Vec<f64> = basis.basic.iter().map(|&idx| x[idx]).collect();
+            #[cfg(selen_verif)]
+            crate::verif_hooks::lp_trace_direction(entering_var, &direction);
             let leaving_idx = basis.find_leaving_variable(
                 &x_basic,
                 &direction,
